@@ -158,6 +158,10 @@ func checkC19(c *core.Ctx) {
 			continue
 		}
 		if !ok {
+			if i < len(hand) {
+				c.Internal("hand-written document does not parse: %q", clip(text, 300))
+				return
+			}
 			continue
 		}
 		// a decoder value that is used again (a json.Decoder reading a stream of documents into one variable):
